@@ -65,8 +65,8 @@ PROPS = {
         "real": ["main_loop, refresh, notify (oal-lsp.rs, included source)", "RequestDispatcher/NotificationDispatcher", "all four handlers", "Workspace, Folder, Config (real oal.toml)", "DefaultFileSystem on tmpfs", "unicode conversions", "whole compiler pipeline"],
         "stub": ["lsp-server stdio threads and framing (Connection::memory()) - except in the validation batch, which replays the same histories against the real oal-lsp process over stdio pipes and requires identical verdicts and transcripts", "initialize handshake (simulated runs)", "the 1000 ms timer (decided by the simulator at select!)", "the editor (client model)", "std hash seed (interposed getrandom)"],
         "assumptions": COMMON_ASSUME + [
-            "client is protocol-legal and well-formed: no malformed JSON, no lone CR, no request for a document that neither is open nor exists",
-            "main_loop keeps no state across iterations outside GlobalState (the simulator pauses it by unwinding at select! and re-enters it)",
+            "client is protocol-legal and well-formed: no malformed JSON, no request for a document that neither is open nor exists; it may send bursts of messages without waiting for the server",
+            "main_loop runs once per simulated server on a thread that is parked at select! whenever the simulator runs (exactly one of the two executes at a time; the simulator decides which); the server blocks nowhere else",
             "a history whose final texts crash the refresh of a *fresh* server too is discarded and counted (skipped_pipeline_crash): that is C01/C04 territory",
         ],
     },
